@@ -210,8 +210,11 @@ Proof.
 Qed.
 Lemma range_p_total s : exists bs r, range_p s = Some (bs, r) /\ length r <= length s.
 Proof.
-  unfold range_p. destruct (hyphen_p s) as [[b r]|] eqn:E; [|apply simples_p_total].
-  destruct (at_alt_end r); [|apply simples_p_total]. apply hyphen_p_len in E. eexists _, r. split; [reflexivity|lia].
+  unfold range_p. pose proof (space0_len s) as L0. set (s' := space0 s) in *.
+  assert (T : exists bs r, simples_p s' = Some (bs, r) /\ length r <= length s).
+  { destruct (simples_p_total s') as (bs & r & E & L). exists bs, r. split; [exact E|lia]. }
+  destruct (hyphen_p s') as [[b r]|] eqn:E; [|exact T].
+  destruct (at_alt_end r); [|exact T]. apply hyphen_p_len in E. eexists _, r. split; [reflexivity|lia].
 Qed.
 Lemma logical_or_len s r : logical_or s = Some r -> length r < length s.
 Proof.
